@@ -3,8 +3,10 @@
 // fault kinds, rates, knobs), then its steps.
 #include <string.h>
 
+#include "codec/wire.h"
 #include "core/core.h"
 #include "harness/checks.h"
+#include "harness/exec.h"
 #include "kernel/kernel.h"
 
 using core::Plan;
@@ -204,7 +206,7 @@ void msg_ops(G &g, int nops, bool with_names, bool with_replies, bool forged, bo
       std::string path = (type == 1 || type == 4) ? paths[g.r.below(4)] : "";
       std::string err = type == 3 ? "com.example.Error.Oops" : "";
       int64_t rs = (type == 2 || type == 3) ? (int64_t)g.r.range(1, 50) : 0;
-      int64_t unk = (forged && g.r.pct(30)) ? (int64_t)g.r.range(11, 255) : 0;
+      int64_t unk = (forged && g.r.pct(35)) ? (int64_t)g.r.range(11, 100000) : 0;
       int64_t ci = (forged && g.r.pct(20)) ? (int64_t)g.r.range(1, 9) : 0;
       int64_t be = g.r.pct(15);
       int64_t shuffle = g.r.pct(25) ? (int64_t)g.r.range(1, 1000) : 0;
@@ -470,6 +472,124 @@ Plan gen_c13(uint64_t seed, bool th) {
   return g.p;
 }
 
+// ---------------------------------------------------------------- C10: hostile clients
+
+std::string mutate_bytes(G &g, std::string b) {
+  if (b.empty()) return b;
+  int k = (int)g.r.below(9);
+  size_t pos = g.r.pct(60) ? g.r.below(std::min<size_t>(b.size(), 24)) : g.r.below(b.size());
+  switch (k) {
+    case 0: b[pos] = (char)g.r.next(); break;                                  // one random byte
+    case 1: b[pos] = (char)(b[pos] ^ (1 << g.r.below(8))); break;              // one bit
+    case 2: {                                                                  // a length word at a limit value
+      static const uint32_t vals[] = {0xffffffffu, 0x7fffffffu, 0x08000000u, 0x08000001u, 0x04000000u, 0x04000001u, 0, 1, 0xfffffff8u};
+      uint32_t v = vals[g.r.below(9)];
+      size_t at = g.r.pct(50) ? 4 : (g.r.pct(50) ? 12 : (pos & ~(size_t)3));
+      if (at + 4 <= b.size()) memcpy(&b[at], &v, 4);
+      break;
+    }
+    case 3: b.resize(g.r.below(b.size())); break;                              // truncated
+    case 4: b += std::string((size_t)g.r.range(1, 40), (char)g.r.next()); break; // trailing junk
+    case 5: b[0] = g.r.pct(50) ? 'B' : 'x'; break;                             // endianness byte
+    case 6: b.insert(pos, std::string((size_t)g.r.range(1, 8), (char)g.r.next())); break;
+    case 7: b.erase(pos, (size_t)g.r.range(1, 8)); break;
+    default: for (int i = 0; i < 4; i++) b[g.r.below(b.size())] = (char)g.r.next(); break;
+  }
+  return b;
+}
+
+std::string valid_message_bytes(G &g, uint32_t serial) {
+  wire::Msg m;
+  int k = (int)g.r.below(5);
+  if (k == 0) m = wire::Msg::method_call(serial, "org.freedesktop.DBus", "/org/freedesktop/DBus", "org.freedesktop.DBus", "ListNames");
+  else if (k == 1) m = wire::Msg::method_call(serial, "org.freedesktop.DBus", "/org/freedesktop/DBus", "org.freedesktop.DBus", "RequestName",
+                                              {wire::Value::string(g.a_name()), wire::Value::u32((uint32_t)g.r.below(8))});
+  else if (k == 2) m = wire::Msg::signal(serial, "/com/example/obj", "com.example.Iface", "Do", {wire::Value::string("hostile"), wire::Value::array("s", {wire::Value::string("x")})});
+  else if (k == 3) m = wire::Msg::method_call(serial, "org.freedesktop.DBus", "/org/freedesktop/DBus", "org.freedesktop.DBus", "AddMatch", {wire::Value::string("type='signal'")});
+  else {
+    simk::Rng r(g.r.next());
+    m = wire::Msg::method_call(serial, ":1." + std::to_string(g.r.below(6)), "/", "com.example.Iface", "Frob", {random_value(r, 0), random_value(r, 0)});
+  }
+  m.big_endian = g.r.pct(20);
+  return wire::marshal(m);
+}
+
+Plan gen_c10(uint64_t seed, bool th) {
+  G g(seed, th);
+  g.p.prop = "C10";
+  g.p.seed = seed;
+  base_shape(g, 3, 3);          // c0,c1: the well-behaved pair; c2: bystander subscribed to everything
+  if (g.r.pct(40)) g.p.cfg["lim.incomplete"] = std::to_string(g.r.range(1, 4));
+  if (g.r.pct(30)) g.p.cfg["lim.msgsize"] = std::to_string(g.r.range(400, 4000));
+  if (g.r.pct(50)) g.p.cfg["lim.auth_timeout"] = std::to_string(g.r.range(50, 3000));
+  g.connect_all(false, true);
+  g.add(g.mk("addmatch", 2, {-1}, {g.r.pct(50) ? "eavesdrop='true'" : "type='signal'"}));
+  g.add(g.mk("reqname", 1, {0, -1}, {"com.example.pair"}));
+  g.add(g.bus_step(3));
+  g.add(g.mk("check"));
+  int nh = (int)g.r.range(1, th ? 4 : 3);
+  int next = 3;
+  std::vector<int> hostile;
+  std::vector<uint32_t> hserial;
+  auto round_trip = [&]() {
+    // the pair's next call must be served correctly
+    g.add(g.mk("send", 0, {1, 0, -1}, {g.r.pct(50) ? "com.example.pair" : "$u1", "/pair", "com.example.Pair", "Ping", "", "", "s:rt"}));
+    g.add(g.bus_step(3));
+    g.add(g.mk("check"));
+    g.add(g.mk("reply", 1, {0, 0, -1}));
+    g.add(g.mk("check"));
+  };
+  int nops = (int)g.r.range(6, th ? 50 : 24);
+  for (int i = 0; i < nops; i++) {
+    int x = (int)g.r.below(100);
+    if (hostile.empty() || (x < 12 && (int)hostile.size() < nh + 3)) {
+      int ni = next++;
+      g.sh.nclients = next;
+      g.add(g.mk("connect", ni, {0, 0, 2000 + ni, 0, g.r.pct(20) ? (int64_t)g.r.range(16, 512) : 0}));
+      hostile.push_back(ni);
+      hserial.push_back(1);
+      int st = (int)g.r.below(100);
+      if (st < 25) { /* never authenticates: stays incomplete */ }
+      else if (st < 40) g.add(g.mk("raw", ni, {-1, 0}, {std::string(1, '\0') + "AUTH EXTERNAL 30\r\n"}));        // stalls before BEGIN
+      else if (st < 50) g.add(g.mk("raw", ni, {-1, 0}, {std::string((size_t)g.r.range(1, 60), (char)g.r.next())})); // garbage before auth
+      else if (st < 58) g.add(g.mk("raw", ni, {-1, 0}, {std::string(1, '\0') + "AUTH " + std::string((size_t)g.r.range(100, 20000), 'A') + "\r\n"}));
+      else if (st < 64) g.add(g.mk("raw", ni, {-1, 0}, {std::string(1, '\0') + "BEGIN\r\n" + valid_message_bytes(g, 1)}));
+      else { g.add(g.mk("auth", ni, {1})); if (g.r.pct(75)) { g.add(g.mk("hello", ni, {-1})); hserial.back() = 2; } }
+      g.pump();
+      continue;
+    }
+    size_t hi = g.r.below(hostile.size());
+    int h = hostile[hi];
+    if (x < 40) {
+      std::string b = valid_message_bytes(g, hserial[hi]++);
+      if (g.r.pct(70)) b = mutate_bytes(g, b);
+      g.add(g.mk("raw", h, {g.r.pct(80) ? -1 : (int64_t)g.r.range(1, 30), 0}, {b}));
+    } else if (x < 50) {
+      // flood of valid messages in one write
+      std::string b;
+      int n = (int)g.r.range(5, th ? 200 : 60);
+      for (int k = 0; k < n; k++) b += valid_message_bytes(g, hserial[hi]++);
+      g.add(g.mk("raw", h, {-1, 0}, {b}));
+    } else if (x < 58) {
+      // half a message, then silence
+      std::string b = valid_message_bytes(g, hserial[hi]++);
+      g.add(g.mk("raw", h, {-1, 0}, {b.substr(0, g.r.below(b.size()))}));
+    } else if (x < 66) {
+      g.add(g.mk("close", h));
+    } else if (x < 72) {
+      g.add(g.mk("raw", h, {-1, 0}, {std::string((size_t)g.r.range(1, 3000), (char)g.r.next())}));
+    } else if (x < 80) {
+      g.add(g.mk("adv", -1, {(int64_t)g.r.range(10, 4000)}));
+    } else {
+      round_trip();
+    }
+    g.pump();
+    if (g.r.pct(15)) g.add(g.mk("check"));
+  }
+  round_trip();
+  return g.p;
+}
+
 }  // namespace
 
 Plan generate(const std::string &prop, uint64_t seed, bool thorough) {
@@ -479,6 +599,7 @@ Plan generate(const std::string &prop, uint64_t seed, bool thorough) {
   if (prop == "C05") return gen_c05(seed, thorough);
   if (prop == "C07") return gen_c07(seed, thorough);
   if (prop == "C13") return gen_c13(seed, thorough);
+  if (prop == "C10") return gen_c10(seed, thorough);
   core::harness_error("no generator for property %s", prop.c_str());
 }
 
